@@ -15,7 +15,8 @@ RULE = (
     "between Frame/RigidBody and RigidBody evaluated on its joint manifold (body 2 rotated about the joint axis by a "
     "generated angle, velocities composed so that g = g_dot = 0) + one element: constant Force on a body, Spring / "
     "KelvinVoigtElement (force and compliance form), MaxwellElement; or a rod with a line-distributed load "
-    "(every rod formulation). State along the kinematic flow with random u. Rigid bodies carry gyroscopic forces, "
+    "(every rod formulation; load constant, ramped in time or varying along the rod, evaluated at 1-3 load times in "
+    "sequence on the same assembled system). State along the kinematic flow with random u. Rigid bodies carry gyroscopic forces, "
     "which enter the power sum. Non-trivial: the element is stretched and moving (|l-l_ref|, |l_dot| > 1e-3)."
 )
 ASSUMPTIONS = [
@@ -47,6 +48,10 @@ def _case(draw):
     if kind == "lineload":
         return {"inter": "lineload", "t0": 0.0, "rod": draw(rodbuild.rod_spec(max_nel=3)),
                 "f": draw(gen.vec3(-1, 1, allow_zero=False)),
+                # load f * (a + b t) * (1 + c xi): constant, ramped in time and/or varying along the rod; evaluated at
+                # several times in sequence on the same assembled system (load stepping)
+                "ramp": draw(st.sampled_from([[1.0, 0.0, 0.0], [0.0, 1.0, 0.0], [0.3, 0.7, 0.5], [1.0, -0.5, -0.8]])),
+                "times": [draw(gen.f(0.0, 2.0)) for _ in range(draw(st.integers(1, 3)))],
                 "dr": [draw(gen.f(-1, 1)) for _ in range(9)], "dp": [draw(gen.f(-1, 1)) for _ in range(8)],
                 "scales": [draw(gen.f(0.8, 1.25)) for _ in range(5)], "u": [draw(gen.f(-2, 2)) for _ in range(11)]}
     spec = {"inter": kind if kind != "force" else "load", "t0": 0.0}
@@ -136,7 +141,12 @@ def _lineload(spec, res):
     rs = spec["rod"]
     site = "Force_line_distributed"
     feats = {"element": site, "formulation": rodbuild.formulation_name(rs)}
-    f = np.array(spec["f"], dtype=float)
+    f0 = np.array(spec["f"], dtype=float)
+    a, b, c = spec.get("ramp", [1.0, 0.0, 0.0])
+    times = spec.get("times", [0.0])
+    f = f0 if (b == 0.0 and c == 0.0) else (lambda t, xi: f0 * (a + b * t) * (1.0 + c * xi))
+    if not callable(f):
+        f = a * f0
     systems = []
     for with_load in (True, False):
         system = sysbuild.new_system(0.0)
@@ -149,24 +159,30 @@ def _lineload(spec, res):
     sysl, sys0 = systems
     q = rodbuild.perturb(rs, Q, spec["dr"], spec["dp"], spec["scales"])
     u = np.array((spec["u"] * (sysl.nu // 11 + 1))[: sysl.nu], dtype=float)
-    # evaluating the total potential energy of the assembled system succeeds (an exception is a failure 'raises')
-    E = sysl.E_pot(0.0, q)
-    res.ok()
-    if not np.isfinite(E):
-        res.fail("epot_evaluates", site, None, feats, repr(E))
     qd = sysl.q_dot(0.0, q, u)
-    power = float((sysl.h(0.0, q, u) - sys0.h(0.0, q, u)) @ u)
-    dE, dis = directional(lambda e: sysl.E_pot(0.0, q + e * qd) - sys0.E_pot(0.0, q + e * qd), 1e-3)
-    scale = 1.0 + abs(power)
-    if dis > 1e-7 * scale:
-        res.inconclusive += 1
-    else:
+    power = 0.0
+    for t in times:
+        # evaluating the total potential energy of the assembled system succeeds (an exception is a failure 'raises')
+        E = sysl.E_pot(t, q)
         res.ok()
-        if abs(power + float(dE)) > 1e-6 * scale:
-            res.fail("power_balance", site, abs(power + float(dE)), feats, f"power={power:.6e} dE/dt={float(dE):.6e}")
+        if not np.isfinite(E):
+            res.fail("epot_evaluates", site, None, feats, repr(E))
+        # the potential may depend on time explicitly; the force does the work of its configuration gradient
+        power = float((sysl.h(t, q, u) - sys0.h(t, q, u)) @ u)
+        dE, dis = directional(lambda e: sysl.E_pot(t, q + e * qd) - sys0.E_pot(t, q + e * qd), 1e-3)
+        scale = 1.0 + abs(power)
+        if dis > 1e-7 * scale:
+            res.inconclusive += 1
+        else:
+            res.ok()
+            if abs(power + float(dE)) > 1e-6 * scale:
+                res.fail("power_balance", site, abs(power + float(dE)), feats,
+                         f"t={t:.4f} (evaluation {times.index(t) + 1} of {len(times)}): power={power:.6e} dE/dt={float(dE):.6e}")
+                break
     # the load's resultant is the force per reference length times the reference length
     res.nontrivial = abs(power) > 1e-3
-    res.label(site, rodbuild.formulation_name(rs))
+    res.label(site, rodbuild.formulation_name(rs), "load:" + ("constant" if not callable(f) else "time_or_xi_dependent"),
+              f"load_evaluations:{len(times)}")
     return res
 
 
